@@ -91,7 +91,23 @@ def check(ctx, prefix="pipeline"):
            "C, Z, N, IE are bits 0..3 of R4; each setter changes only its bit and the getter reads it back",
            "register.rs Register::set_*_flag / *_flag", "disagreeing cases: %s" % fb[:4],
            "constant propagation through the setters/getters on four bit patterns")
-    # 5. the accessors the pipeline and the sequencer read through are plain getters of the named field
+    # 5. frame: registers change only through the commit stage
+    fr = ctx.graph.front
+    lost = sorted(a for a, r in fr.items() if not r.get("regs_kept"))
+    chk.ob("%s/frame/registers" % prefix, not lost and len(fr) >= 200,
+           "for every programmed word, a clock edge without a pending register or flag commit leaves R0-R7 (PC, flags with the "
+           "interrupt-enable bit, SP) unchanged: the register file is written by the commit stage only",
+           "raw/mod.rs RawMachine::trigger_clock_edge", "%d words analysed; words whose edge changes a register: %s"
+           % (len(fr), [(hex(a), fr[a].get("regs_after")) for a in lost[:3]]),
+           "abstract interpretation of the whole edge with eight opaque register tags, per programmed word")
+    accessors(ctx, prefix)
+    return dp
+
+
+def accessors(ctx, prefix="pipeline"):
+    """The accessors the pipeline and the sequencer read through are plain getters of the named field (also run by C09:
+    the next-address function sees the ALU conditions, flags and flip-flops only through Signals::from)."""
+    p, chk = ctx.p, ctx.chk
     ALUO = "L::machine::alu::AluOutput"
     fn_out = p.field_names(ALUO)
     gb = []
@@ -143,4 +159,3 @@ def check(ctx, prefix="pipeline"):
            "the ALU output accessors return the field they name; the sequencer's C/Z/N/IE inputs and the ALU's carry input are "
            "bits 0..3 of R4", "alu.rs accessors, raw/signals.rs Signals::from / *_flag", "; ".join(gb[:4]),
            "abstract interpretation with opaque fields / constant propagation on four bit patterns")
-    return dp
